@@ -381,6 +381,43 @@ def run(rep, tier):
     if n9 < 20:
         raise AnalysisBroken("C17.R9 examined only %d instances" % n9)
 
+    # ---- R10: every link value a helper acts on was read while the unstable anchor was still current
+    rep.rule("C17.R10", "K8 (validated reads of Michael's deque): stabilize_left/right re-compare the anchor with the value the caller observed after each link load and before "
+             "acting on the loaded value - before dereferencing the neighbour pointer it loaded, and between loading the neighbour's inward link and repairing it with a "
+             "compare-exchange. Without the second comparison a delayed helper repairs a link it read after the push had already been stabilised, popped and replaced: the "
+             "neighbour then points at a freed node (elements lost / returned twice)")
+    n10 = 0
+    for short, side in (("stabilize_left", "left"), ("stabilize_right", "right")):
+        fn = [f for f in D.find(r"^pika::concurrency::detail::deque::%s$" % short, pattern=False) if f.parent == -1][0]
+        chk = set()
+        for b in fn.blocks.values():
+            ct = T(b.cond) if b.cond else ""
+            if "anchor_" in ct and "lrs" in ct:
+                for i, e in enumerate(b.events):
+                    if e.get("k") == "read" and T(e["e"]).endswith("anchor_"):
+                        chk.add((b.id, i))
+        if not chk:
+            rep.bad("C17.R10", fn, fn.loc, short + ":no-validation", "%s never compares the anchor with the observed value" % short)
+            continue
+        pos_of = {id(e): (b, i) for b, i, e in fn.all_events()}
+        is_chk = lambda e: pos_of.get(id(e)) in chk
+        is_load = lambda e: e.get("k") == "call" and callee_short(e) == "load" and re.search(r"->(left|right)$", P(e.get("recv") or {}) or "")
+        loads = [(b, i, e) for b, i, e in fn.all_events() if is_load(e)]
+        if len(loads) < 2:
+            raise AnalysisBroken("%s: link loads not recognised" % short)
+        targets = [(b, i, e, "dereferences the neighbour pointer it loaded") for b, i, e in loads if not P(e["recv"]).startswith("lrs.")]
+        targets += [(b, i, e, "repairs the link") for b, i, e in fn.all_events() if e.get("k") == "call" and callee_short(e) == "compare_exchange_strong"
+                    and re.search(r"->%s$" % side, P(e.get("recv") or {}) or "")]
+        for b, i, e, what in targets:
+            n10 += 1
+            if precedes_on_all_paths(fn, is_chk, (b, i), reset_pred=is_load):
+                rep.ok("C17.R10", fn, "%s re-validates the anchor between its last link load and the point (%s) where it %s" % (short, loc_of(e), what))
+            else:
+                rep.bad("C17.R10", fn, loc_of(e), short + ":unvalidated-read", "%s %s at %s without comparing the anchor with the observed value after the preceding link load: the loaded "
+                        "value may belong to a later state of the deque (the push already stabilised, its node popped and freed), the repair then links a freed node back in" % (short, what, loc_of(e)))
+    if n10 < 4:
+        raise AnalysisBroken("C17.R10 examined only %d instances" % n10)
+
     # ---- R8: link tags keep counting when a node is recycled
     rep.rule("C17.R8", "K8 (ABA across node reuse): deque nodes are recycled through a LIFO free list, and a thread delayed inside stabilize_left/right may still hold a "
              "(pointer, tag) pair read from a link of a node's previous life.  The tags of a node's links therefore continue from the value found in the recycled "
